@@ -379,6 +379,20 @@ impl<'tcx> Cx<'tcx> {
                 }
                 Some(J::O(vec![("struct", s(self.path(def.did()))), ("fields", J::A(v))]))
             }
+            ty::Tuple(tys) if !tys.is_empty() => {
+                let layout = self.tcx.layout_of(env.as_query_input(t)).ok()?;
+                let mut v = Vec::new();
+                for (i, ft) in tys.iter().enumerate() {
+                    let fl = self.tcx.layout_of(env.as_query_input(ft)).ok()?;
+                    let o = layout.fields.offset(i).bytes() as usize;
+                    let sz = fl.size.bytes() as usize;
+                    if o + sz > bytes.len() {
+                        return None;
+                    }
+                    v.push(self.read_bytes(&bytes[o..o + sz], ft)?);
+                }
+                Some(J::O(vec![("tuple", J::A(v))]))
+            }
             ty::Adt(def, _) if def.is_enum() && def.variants().iter().all(|v| v.fields.is_empty()) && !bytes.is_empty() && bytes.len() <= 16 => {
                 // field-less enum: the stored tag is the discriminant (a table of states, a table of actions)
                 let mut v: u128 = 0;
